@@ -108,6 +108,23 @@ CLAIMS = {
             "writer/reader tables.",
             "Not decided: idempotence as a fixpoint over arbitrary documents; byte-exactness of line terminators (CRLF is normalised and a final "
             "newline added by design).", "§4 C10"),
+    "C01": ("Decides by property simulation (unmerged abstract states over the CFG of DiffTool::diff, roles bound by dataflow) the inductive "
+            "invariant `every consumed line was matched-and-recorded or reported unexpected, every passed expectation was recorded or is "
+            "optional, an open multiline run is recorded before its expectation is left`, the function-exit obligations (open run, remaining "
+            "expectations, remaining lines, result is the pushed Vec), that has_differences is true iff some record is not Matched and that "
+            "validate returns Ok only on its false edge, and that Expectation::matches forwards to the rule unchanged.",
+            "Not decided: that Rule::matches implements the documented relation (C04); behaviour of std Vec/iterator adaptors (trusted).", "§4 C01, Appendix A"),
+    "C02": ("Decides on the same simulation the payload obligations (index is E; lines exactly [(L, LINES[L])], M..L, L..X, L..len), progress "
+            "(every iteration strictly advances a cursor by +1 or to a peek result; no other cursor writes => termination), bounds (EXPS[E] / "
+            "LINES[L] only in states with the cursor in bounds, incl. the tail access under an open run), and the partition shape of "
+            "split_at_newline.",
+            "Not decided: panics inside to_owned/allocation; usize overflow of counters (bounded by slice lengths).", "§4 C02"),
+    "C03": ("Decides necessary conditions only: no failure record without a failing guard (Unmatched only for non-optional expectations after a "
+            "mismatch or in the tail, with the `!optional` filter on skipped ranges; Unexpected only after a mismatch; nothing but Matched on a "
+            "matching pair), a multiline run yields only on the next-matches edge, and the look-ahead prefers the nearest later expectation "
+            "(first hit from E+1) before searching lines (first hit from L+1).",
+            "Not decided: that these conditions suffice for completeness on every deterministic input (an inductive argument about the greedy "
+            "strategy against the language semantics, not a shape of the code).", "§4 C03"),
 }
 
 PENDING = "static rules for this property are designed (DESIGN.md §4) but not yet implemented in this revision"
